@@ -215,6 +215,8 @@ P_Replay ==
           /\ rp.act = st'.act
           /\ rp.ok <=> (st'.act # st.act \/ \E i \in 1 .. Len(st'.ev) : Base(st'.ev[i][2]) \in LifeMethods)
           /\ WellFormed(rp)
+          \* single round, no scheduling request: also the same resumable sub-states
+          /\ (Len(st'.rounds) = 1 /\ \A j \in 1 .. Len(st'.rounds[1][2]) : st'.rounds[1][2][j][3] # "schedule") => rp.res = st'.res
       ]_vars
 
 \* C13 : in every reachable state and for every state d, a hook-free external resume(d) leaves every composite region at
